@@ -491,3 +491,31 @@ Proof.
       rewrite H in P. now right.
   - intro I. now apply resume_complete.
 Qed.
+
+(* ---------------------------------------------------------------- the live fraction list *)
+(* doSearch walks the fraction names PERSISTED in <id>.info; the fractions alive at resume time only
+   serve to look those names up. Whatever else is alive (fractions created after StartSearch) has no
+   influence on the operations. *)
+Lemma dosearch_live_indep : forall s live fs,
+  (forall f, In f fs -> processed s f = false -> In f live) ->
+  dosearch_live s live fs = (dosearch_ops s fs, false).
+Proof.
+  intros s live fs. unfold dosearch_ops. induction fs as [|f r IH]; intro H; simpl.
+  - reflexivity.
+  - unfold frac_ops at 1. destruct (processed s f) eqn:Pf.
+    + apply IH. intros g Hg. apply H. now right.
+    + assert (L : existsb (N.eqb f) live = true).
+      { apply existsb_exists. exists f. split; [apply H; [now left|assumption]|apply N.eqb_refl]. }
+      rewrite L. rewrite IH by (intros g Hg; apply H; now right). simpl. rewrite <- ?app_assoc. reflexivity.
+Qed.
+
+Theorem resume_complete_live : forall fs live s, inv fs s -> incl fs live ->
+  resume_live s live fs = (flat_map group (remaining s fs) ++ done_write, false)
+  /\ final fs (apply_ops s (fst (resume_live s live fs))).
+Proof.
+  intros fs live s I Hl.
+  assert (E : resume_live s live fs = (resume_ops s fs, false)).
+  { unfold resume_live, resume_ops. destruct I as [I0 _]. unfold vfind in I0. rewrite I0.
+    apply dosearch_live_indep. intros f Hf _. now apply Hl. }
+  rewrite E. simpl. destruct (resume_complete fs s I) as [A B]. rewrite <- A. split; [reflexivity|assumption].
+Qed.
